@@ -482,7 +482,7 @@ pub fn main(args: Args) -> i32 {
         }
     });
     // 3. the program space
-    let opts = gen::Opts { depth: 2, max_programs: u64::MAX, multi_template: false, loop_controls: false };
+    let opts = gen::Opts { depth: 2, max_programs: u64::MAX, multi_template: false, loop_controls: false, extra_leaves: false };
     let size = gen::Gen::new(opts).size();
     let stride = 1u64;
     let n_prog = (size + stride - 1) / stride;
